@@ -1467,14 +1467,14 @@ pub fn float_vector_shove(push_state: &mut PushState, _instruction_cache: &Instr
 /// FLOATVECTOR.SORT*ASC: Sorts the top FLOATVECTOR item in ascending order.
 pub fn float_vector_sort_asc(push_state: &mut PushState, _instruction_cache: &InstructionCache) {
     if let Some(fvec) = push_state.float_vector_stack.get_mut(0) {
-        fvec.values.sort_by(|a, b| a.partial_cmp(b).unwrap());
+        fvec.values.sort_by(|a, b| a.total_cmp(b));
     }
 }
 
 /// FLOATVECTOR.SORT*DESC: Sorts the top FLOATVECTOR item in descending order.
 pub fn float_vector_sort_desc(push_state: &mut PushState, _instruction_cache: &InstructionCache) {
     if let Some(fvec) = push_state.float_vector_stack.get_mut(0) {
-        fvec.values.sort_by(|a, b| a.partial_cmp(b).unwrap());
+        fvec.values.sort_by(|a, b| a.total_cmp(b));
         fvec.values.reverse();
     }
 }
